@@ -5,6 +5,18 @@ V = os.path.dirname(os.path.dirname(os.path.abspath(__file__)))
 props = [json.loads(l) for l in open(os.path.join(V, "properties.jsonl"))]
 
 CLAIMED = {
+ "C08": dict(cat="model_checking", tech="TLC model checking of Arena.tla (save/load, relocation registration) + cross-process image comparison + trace validation of saved-destroyed-loaded rules against the Cond/TextMatch/ReMatch/Scan specs",
+   text="Arena.tla models cells, pointers with address epochs, the relocation list and the saved image; TLC checks ImageIndependentOfEpochs and CompleteLoads over all write/registration histories (one unregistered pointer violates them). On the implementation: a corpus covering every construct is saved in three processes with different heap layouts and must be byte-identical; random conditions, strings of every kind and scanner-protocol rule sets are compiled, saved (file and stream), the compiler and the ORIGINAL rules destroyed, loaded (file and item-wise stream) and scanned under ASan, every observation judged by TLC against the same specifications as C01-C04/C11.",
+   ref="5 C08, 4.9", note="raw pointers in the image are detected through differing layouts/allocators (ASLR, glibc vs ASan), not by a relocation audit (hook H2 not built). D8 is a known finding."),
+ "C17": dict(cat="fault_enumeration", tech="TLC model checking of Arena.tla (TruncatedNeverLoads) + exhaustive prefix sweep and header/table field corruptions of real saved files judged by ArenaFile.tla in TLC",
+   text="The loader is modelled unit by unit; TLC checks that no strict prefix of any saved image loads (the as-coded 'until end of stream' loader violates it: D5). Every prefix length of 7 real saved files (exhaustive for files <= 8 KiB; boundaries +-2 and 1500 sampled points above; all in thorough), through yr_rules_load and an item-wise stream, and single-field corruptions of magic, version, num_buffers and every table offset/size are loaded under ASan/UBSan; each result class is judged by ArenaFile!LoadBytes / CorruptOK.",
+   ref="5 C17, 4.9", note="a load that unexpectedly succeeds is followed by a scan under ASan. Six loader defects (D5, D20-D24) were repaired with fix: commits."),
+ "C19": dict(cat="model_checking", tech="TLC model checking of Arena.tla (NoStaleDeref, RegisteredPointersValid under every growth position) + capacity sweep through hook H1 judged by the Cond/Scan specs and by byte-identical images",
+   text="Arena.tla makes every allocation a potential move (InitCap = 1) and checks that registered pointers are fixed up and that client code never dereferences a raw pointer taken before an allocation (violated without the re-fetch discipline). Hook H1 compiles the corpus with initial capacities 1..65536 under ASan: saved bytes must equal the default's; random conditions / rule sets under capacities 1, 8, 64 are judged by TLC; a 9700-rule set (buffers > 1 MiB) must equal the same rules compiled in groups, also after save+load.",
+   ref="5 C19, 4.9", note="hook H1 (YARA_VERIF) sets the initial arena buffer size."),
+ "C20": dict(cat="model_checking", tech="TLC model checking of Externals.tla (all define/create/scan histories of <=7 operations, 2 scanners) + trace validation of recorded histories against ExternalsTrace.tla",
+   text="Three environments with the type-compatibility tables and result codes of compiler.c/rules.c/scanner.c; MostSpecificWins and RulesTableIsolated are written from the property over history variables; the shared-table variant violates them. Random histories (duplicates, unknown identifiers, wrong types, 3 scanners) run on the library; every result code and every value observed by every scan (one rule per (variable, value)) must be the model's.",
+   ref="5 C20, 4.8", note="int/bool interchangeable at scanner level (follows code). CLI -d parsing is covered by C18."),
  "C04": dict(cat="model_checking", tech="trace validation: recorded (condition, buffer, match lists, verdict) cases judged by TLC against the TLA+ reference semantics Cond.tla",
    text="Cond.tla is an evaluator of the whole condition language over explicit values incl. undefined (arithmetic, bitwise, shifts, comparisons with float promotion, string operators, $ # @ ! at in, of forms, for..of / for..in, intN readers, externals, rule references). Random well-typed trees are printed with minimal parentheses (so the parser's precedence and associativity are exercised), compiled and scanned; TLC evaluates Verdict(ast, env) for every case on the match lists the scan reported.",
    ref="5 C04, 4.5", note="integer magnitudes < 2^22 (TLC integers are 32-bit); a loop over zero items is false (exec.c:747, manual silent). D15/D19 are known findings with spec-side signatures."),
@@ -65,6 +77,6 @@ def main():
     json.dump(m, open(os.path.join(V, "MANIFEST.json"), "w"), indent=1)
 
 NA = {}
-HOOK_COMMITS = []
+HOOK_COMMITS = ["f6278db"]
 if __name__ == "__main__":
     main()
